@@ -276,5 +276,63 @@ theorem sinv_step {s s' : St} {tr : Tr} (hi : Inv s) (h : SInv s) (hs : step? s 
                hok.2.2.2.2.2.2.2.2.2.2.2⟩
       · cases hs
     · cases hs
+  | startupReady t n =>
+    simp only [step?] at hs; split at hs
+    · split at hs
+      · split at hs
+        · rename_i q _ _ tp htp hg
+          cases hs
+          have hok := h.tpok tp (List.mem_of_getElem? htp)
+          have hok' := tpOK_mono hok (Nat.le_succ _)
+          refine sinv_tpset (tp := tp) h htp rfl rfl rfl rfl rfl ?_ (fun r hr hh => hh) (fun e => ⟨e, rfl⟩)
+          simpa only [tpOK] using hok'
+        · cases hs
+      · cases hs
+    · cases hs
+  | actionDone t q =>
+    simp only [step?] at hs; split at hs
+    · split at hs
+      · rename_i m _ _ tp hbt hsu htp hg
+        split at hs
+        · rename_i hf
+          cases hs
+          have hok := h.tpok tp (List.mem_of_getElem? htp)
+          have hclk := h.clk
+          simp only [tpOK, hg.1] at hok
+          obtain ⟨a1, a2, a3, a4, a5, a6, a7, a8, a9, a10, a11, b1, b2, b3, b4, b5⟩ := hok
+          refine sinv_tpset h htp rfl rfl rfl rfl rfl ?_ (fun r hr hh => hh) (fun e => by rw [hg.1] at e; cases e)
+          simp only [tpOK]
+          exact ⟨by omega, by omega, by omega, by omega, by omega, by omega, a7, by omega, by omega, by omega, by omega,
+                 b1, by omega, by omega, by omega, by omega, by omega, by omega, by omega⟩
+        · cases hs
+          have hok := h.tpok tp (List.mem_of_getElem? htp)
+          have hok' := tpOK_mono hok (Nat.le_succ _)
+          refine sinv_tpset (tp := tp) h htp rfl rfl rfl rfl rfl ?_ (fun r hr hh => hh) (fun e => ⟨e, rfl⟩)
+          simpa only [tpOK] using hok'
+      · cases hs
+    · cases hs
+  | nestDec t =>
+    simp only [step?] at hs; split at hs
+    · split at hs
+      · rename_i q hsu _ tp htp
+        cases hs
+        have hst : tp.st = .inCbN := by
+          obtain ⟨x, hx, hxs, _⟩ := hi.nFwd t q hsu
+          rw [htp] at hx; cases hx; exact hxs
+        have hok := h.tpok tp (List.mem_of_getElem? htp)
+        have hclk := h.clk
+        simp only [tpOK, hst] at hok
+        refine sinv_tpset h htp rfl rfl rfl rfl rfl ?_ ?_ (fun e => by rw [hst] at e; cases e)
+        · simp only [tpOK]
+          refine ⟨by omega, by omega, by omega, by omega, by omega, by omega, hok.2.2.2.2.2.2.1, by omega, by omega, by omega, by omega, ?_⟩
+          refine ⟨by omega, by omega, by omega, by omega, by omega, by omega, fun _ => by omega, fun e => ?_⟩
+          rw [hok.2.2.2.2.2.2.2.2.2.2.2.1] at e; cases e
+        · intro r hr hh
+          simp only []
+          intro h1 h2
+          have := hh h1 h2
+          omega
+      · cases hs
+    · cases hs
 
 end ParsecVerif.Context
